@@ -39,11 +39,11 @@ MUTS = [
     ('M11 register_internal: a second fresh variable is drawn and the value carries the first', F,
      TAIL_I, 'let type_var = self.tyvar_source.fresh();\n        ' + TAIL_I, 'C14.tc_state.register_internal.variable_becomes_known'),
     ('M12 register_internal: inserted into stable_types even when not stable', F,
-     '        if is_stable {\n            self.stable_types.insert(value, new_value.clone());\n        }', '        self.stable_types.insert(value, new_value.clone());', 'C11.tc_state.register_internal.only_stable_values_are_shared'),
+     '        if is_stable {\n            self.stable_types.insert(value, new_value.clone());\n        }', '        self.stable_types.insert(value, new_value.clone());', 'C14.tc_state.register_internal.only_stable_values_are_shared'),
     ('M13 register_internal: stable value never remembered', F,
-     '        if is_stable {\n            self.stable_types.insert(value, new_value.clone());\n        }', '', 'C11.tc_state.register_internal.stable_value_is_remembered'),
+     '        if is_stable {\n            self.stable_types.insert(value, new_value.clone());\n        }', '', 'C14.tc_state.register_internal.stable_value_is_remembered'),
     ('M14 register_internal: the shared lookup ignores stability... returns a NEW registration for a known stable value', F,
-     '        if is_stable {\n            if let Some(r) = self.stable_types.get(&value) {\n                return r.clone();\n            }\n        }\n', '', 'C11.tc_state.register_internal.stable_value_gets_the_same_boxed_value'),
+     '        if is_stable {\n            if let Some(r) = self.stable_types.get(&value) {\n                return r.clone();\n            }\n        }\n', '', 'C14.tc_state.register_internal.stable_value_gets_the_same_boxed_value'),
     ('M15 register_internal: inference set of the new variable not created', F,
      '        ' + TAIL_I + '\n', '', 'C14.tc_state.register_internal.variable_becomes_known'),
     ('M16 register_internal: `insert` wipes... expressions not registered', F,
